@@ -83,12 +83,13 @@ pub struct JGenCfg {
   pub asset_imports: usize,   // percent of relative imports written as text / bytes imports (outside the model)
   pub seeds: usize,           // percent of worlds whose graph is first filled from a lockfile (package specifiers)
   pub dates: usize,           // percent of worlds built with a newest-dependency date (some packages exempt)
+  pub json_attr: usize,       // percent of relative imports written with { type: "json" } (relational streams only)
   pub asset_abs: usize,       // percent of https-registry / jsr: imports written as text / bytes imports (outside the model)
 }
 
 impl Default for JGenCfg {
   fn default() -> Self {
-    JGenCfg { faults: 12, locker: 40, prefer_cached: 30, stale_meta: 15, modinfo: 60, dynamic: 20, https_imports: 15, weird_exports: 10, partial_info: 12, stale_info: 15, dirty_cache: true, manifest_faults: 4, asset_imports: 0, seeds: 12, dates: 25, asset_abs: 0 }
+    JGenCfg { faults: 12, locker: 40, prefer_cached: 30, stale_meta: 15, modinfo: 60, dynamic: 20, https_imports: 15, weird_exports: 10, partial_info: 12, stale_info: 15, dirty_cache: true, manifest_faults: 4, asset_imports: 0, seeds: 12, dates: 25, asset_abs: 0, json_attr: 0 }
   }
 }
 
@@ -161,7 +162,10 @@ fn gen_imports(rng: &mut Rng, cfg: &JGenCfg, own_paths: &[&str], own_path: &str,
     // asset imports of package files by https URL into the registry or by jsr: specifier (requested without
     // version info in hand) only in the stream that judges the real loader calls
     let asset_abs = (text.starts_with(REGISTRY) || text.starts_with("jsr:@")) && rng.chance(cfg.asset_abs);
-    let form = if asset_abs || (relative && rng.chance(cfg.asset_imports)) {
+    let form = if relative && cfg.json_attr > 0 && rng.chance(cfg.json_attr) {
+      // a script file of the package imported with a non-asset type attribute (an error entry either way)
+      Form::JsonAttr
+    } else if asset_abs || (relative && rng.chance(cfg.asset_imports)) {
       if rng.chance(60) { Form::TextAttr } else { Form::BytesAttr }
     } else if rng.chance(cfg.dynamic) {
       Form::Dynamic
